@@ -700,39 +700,58 @@ func runtimeErrorType() types.Type {
 	return rtErrType
 }
 
+const repoModule = "github.com/grafana/carbon-relay-ng"
+
+func isRepoPkg(pkg *ssa.Package) bool {
+	return pkg != nil && strings.HasPrefix(pkg.Pkg.Path(), repoModule)
+}
+
+// Globals of /repo packages are re-initialised on every path. Globals of dependency packages
+// (stdlib, third party) are initialised once per process and shared between paths: they are
+// assumed to be immutable after init (lookup tables, sentinel errors).
+var sharedGlobals = map[*ssa.Global]*value{}
+var sharedInit = map[*ssa.Package]int{}
+
 // globalAddr returns the cell of a package-level variable, initialising its package lazily.
 func (e *Engine) globalAddr(g *ssa.Global) *value {
 	if p, ok := e.globals[g]; ok {
 		return p
 	}
-	pkg := g.Pkg
-	e.ensureInit(pkg)
-	if p, ok := e.globals[g]; ok {
+	if p, ok := sharedGlobals[g]; ok && sharedInit[g.Pkg] == 2 {
 		return p
 	}
-	cell := zero(deref(g.Type()))
-	p := &cell
-	e.globals[g] = p
-	return p
+	pkg := g.Pkg
+	e.ensureInit(pkg)
+	if isRepoPkg(pkg) {
+		return e.globals[g]
+	}
+	return sharedGlobals[g]
 }
 
 func (e *Engine) ensureInit(pkg *ssa.Package) {
-	if e.initDone[pkg] != 0 {
+	repo := isRepoPkg(pkg)
+	gl, done := sharedGlobals, sharedInit
+	if repo {
+		gl, done = e.globals, e.initDone
+	}
+	if done[pkg] == 3 {
+		e.inconclusive("package init failed earlier: " + pkg.Pkg.Path())
+	}
+	if done[pkg] != 0 {
 		return
 	}
-	e.initDone[pkg] = 1
-	// allocate all globals first
+	done[pkg] = 1
 	for _, m := range pkg.Members {
 		if g, ok := m.(*ssa.Global); ok {
-			if _, ok := e.globals[g]; !ok {
+			if _, ok := gl[g]; !ok {
 				cell := zero(deref(g.Type()))
-				e.globals[g] = &cell
+				gl[g] = &cell
 			}
 		}
 	}
 	path := pkg.Pkg.Path()
 	if skipInit[path] {
-		e.initDone[pkg] = 2
+		done[pkg] = 2
 		if f, ok := initHooks[path]; ok {
 			f(pkg)
 		}
@@ -741,15 +760,22 @@ func (e *Engine) ensureInit(pkg *ssa.Package) {
 	pkg.Build()
 	initFn := pkg.Func("init")
 	if initFn != nil && initFn.Blocks != nil {
-		// run in a fresh frame chain; nested package inits are skipped (lazy)
 		saved := e.curG.top
 		savedInit := e.initExplicit
 		e.curG.top = nil
 		e.initExplicit = initFn
+		ok := false
 		func() {
-			defer func() { e.curG.top = saved; e.initExplicit = savedInit }()
+			defer func() {
+				e.curG.top = saved
+				e.initExplicit = savedInit
+				if !ok && !repo {
+					done[pkg] = 3
+				}
+			}()
 			callSSA(nil, token.NoPos, initFn, nil, nil)
+			ok = true
 		}()
 	}
-	e.initDone[pkg] = 2
+	done[pkg] = 2
 }
